@@ -2,9 +2,11 @@ package quic
 
 import (
 	"bytes"
+	"cmp"
 	"errors"
 	"fmt"
 	"math"
+	"slices"
 
 	"github.com/refraction-networking/clienthellod"
 	"github.com/refraction-networking/uquic/internal/ackhandler"
@@ -539,14 +541,7 @@ func (p *uPacketPacker) MarshalInitialPacketPayload(pl payload, v protocol.Versi
 	// already planned and consumed the stream. Send them exactly as the packer produced
 	// them.
 	if p.flightPlanned {
-		var frameBytes []byte
-		for _, f := range pl.frames {
-			var err error
-			if frameBytes, err = f.Frame.Append(frameBytes, v); err != nil {
-				return nil, err
-			}
-		}
-		return frameBytes, nil
+		return marshalFramesAsPacked(pl, v)
 	}
 
 	// [UQUIC] Every call from here on builds exactly one Initial datagram of the flight,
@@ -556,6 +551,19 @@ func (p *uPacketPacker) MarshalInitialPacketPayload(pl payload, v protocol.Versi
 	// stay at 0 for those, so every datagram was cut and sized by InitialPackets[0]).
 	datagramIdx := p.initialDatagramIdx
 	p.initialDatagramIdx++
+
+	// [UQUIC] A FrameBuilder lays out ONE contiguous slice of the ClientHello. Loss recovery
+	// also produces Initial packets that are no such slice: a PTO probe with nothing to
+	// retransmit carries a PING and no CRYPTO data at all, and when two datagrams of the
+	// flight that are not neighbours are declared lost together, their CRYPTO ranges are
+	// gathered into one packet with a gap between them. Handing those to the builder
+	// failed the connection ("failed to reassemble CRYPTO frames") or, for a QUICFrames
+	// layout that addresses its slice by offset, panicked on the empty slice. They are
+	// not part of the flight the spec describes, so send them exactly as the packer
+	// produced them, as after a planned flight.
+	if !cryptoFramesFormOneRange(pl.frames) {
+		return marshalFramesAsPacked(pl, v)
+	}
 
 	var originalFrameBytes []byte
 
@@ -616,9 +624,77 @@ func (p *uPacketPacker) MarshalInitialPacketPayload(pl payload, v protocol.Versi
 	// [UQUIC] Use QUICFrameBuilderEx if available: supports N-datagram Initials via
 	// per-datagram index and base offset. Falls back to Build() for single-datagram specs.
 	if ext, ok := p.uSpec.InitialPacketSpec.FrameBuilder.(QUICFrameBuilderEx); ok {
+		// [UQUIC] A QUICFrames layout addresses the slice it is handed by offset and length.
+		// The slice of the last datagram of a flight, and the few bytes a retransmission
+		// leaves over when a lost frame no longer fits one packet, can be shorter than the
+		// layout assumes; QUICFrames.build then panicked (negative length, slice bounds) or
+		// padded the ClientHello with zero bytes. A layout that addresses bytes the slice
+		// does not have cannot be applied to it: send those bytes as the packer framed them.
+		if qf, ok := ext.(QUICFrames); ok && !quicFramesLayoutFits(qf, len(cryptoData)) {
+			return marshalFramesAsPacked(pl, v)
+		}
 		return ext.BuildForDatagram(datagramIdx, cryptoData, baseOffset)
 	}
 	return p.uSpec.InitialPacketSpec.FrameBuilder.Build(cryptoData)
+}
+
+// marshalFramesAsPacked serializes the frames of an Initial packet exactly as the packer
+// selected them, without consulting the spec's FrameBuilder. [UQUIC]
+func marshalFramesAsPacked(pl payload, v protocol.Version) ([]byte, error) {
+	var frameBytes []byte
+	for _, f := range pl.frames {
+		var err error
+		if frameBytes, err = f.Frame.Append(frameBytes, v); err != nil {
+			return nil, err
+		}
+	}
+	return frameBytes, nil
+}
+
+// quicFramesLayoutFits reports whether every QUICFrameCrypto of a non-empty layout addresses
+// bytes that exist in a slice of n bytes of CRYPTO data, the way QUICFrames.build reads the
+// layout: offsets are taken relative to the lowest offset of the layout, Length 0 means
+// "to the end of the slice". [UQUIC]
+func quicFramesLayoutFits(qfs QUICFrames, n int) bool {
+	lowest := math.MaxUint16
+	for _, frame := range qfs {
+		if offset, _, _ := frame.CryptoFrameInfo(); offset < lowest {
+			lowest = offset
+		}
+	}
+	for _, frame := range qfs {
+		offset, length, isCrypto := frame.CryptoFrameInfo()
+		if !isCrypto {
+			continue
+		}
+		start := offset - lowest
+		if length < 0 || start < 0 || start > n || (length > 0 && start+length > n) {
+			return false
+		}
+	}
+	return true
+}
+
+// cryptoFramesFormOneRange reports whether the CRYPTO frames among frames carry at least
+// one byte and, put in stream order, each starts exactly where the previous one ends —
+// i.e. whether together they are one contiguous slice of the CRYPTO stream, which is
+// what a FrameBuilder (and clienthellod.ReassembleCRYPTOFrames before it) needs. [UQUIC]
+func cryptoFramesFormOneRange(frames []ackhandler.Frame) bool {
+	var cfs []*wire.CryptoFrame
+	for _, f := range frames {
+		if cf, ok := f.Frame.(*wire.CryptoFrame); ok {
+			cfs = append(cfs, cf)
+		}
+	}
+	slices.SortStableFunc(cfs, func(a, b *wire.CryptoFrame) int { return cmp.Compare(a.Offset, b.Offset) })
+	var total protocol.ByteCount
+	for i, cf := range cfs {
+		if i > 0 && cf.Offset != cfs[0].Offset+total {
+			return false
+		}
+		total += protocol.ByteCount(len(cf.Data))
+	}
+	return total > 0
 }
 
 func (p *uPacketPacker) PackPTOProbePacket(
